@@ -27,11 +27,21 @@ RULE = ('one case = one generated method: a signature of 1..3 parameters (positi
         'with argument tuples / mappings drawn from per-type alphabets of conforming, coercible and non-conforming values. '
         'Conformance is decided by a hand-written evaluator for exactly that schema alphabet and by a hand-written '
         '(annotation, value) table - never by the validator libraries. One evaluation = one call. Distinct = distinct '
-        '(method source, validator configuration, params).')
+        '(method source, validator configuration, params). Besides the one-method cases there are groups: ONE validator object '
+        '(BaseValidator / JsonSchemaValidator / PydanticValidator) decorates 2..3 different functions (or methods of different '
+        'view classes) that share __module__, __name__ and __qualname__ but differ in signature (parameter count, names, kinds, '
+        'defaults, schema / annotations), all with the same or with differing exclusion sets; they sit on one dispatcher under '
+        'different JSON-RPC names and their calls are issued in one shuffled sequence (or member after member and back again); '
+        'each call is judged against the function it is dispatched to, as if that function were alone. A view method may be an '
+        'instance method, a @classmethod or a @staticmethod; a JsonSchemaValidator may be constructed with a default schema '
+        '(laxer / stricter / unrelated, overridden by the method\'s own schema; or the only schema, the method being decorated '
+        'with a bare validate).')
 ASSUMPTIONS = [
     'the (annotation, value) table lists only unambiguous pydantic-2 lax-mode entries (e.g. bool for int is left out)',
     'jsonschema fragments avoid the bool/number equality corner of enum',
     'excluded parameters carry defaults (nothing else can supply them)',
+    'in a shared-validator group the members share the exclusion predicate, the coercion flag and the dispatcher (hence sync / '
+    'async / view style); the order of calls is a function of the case arguments (own PRNG seeded from them), so a replay repeats it',
 ]
 SHARDS = {'quick': 4, 'thorough': 16}
 TIMEOUT = {'quick': 600, 'thorough': 3000}
@@ -47,7 +57,19 @@ FLOORS = {'*': {**{f'{v}:{o}': 30 for v in ('jsonschema', 'pydantic') for o in (
                 'client-sets-excluded': 30, 'client-sets-context': 30, 'style:view': 100, 'style:async': 100, 'passing:named': 300,
                 'passing:positional': 300, 'refusal-data-checked': 300, 'pydantic:live-exception-in-error': 5,
                 'jsonschema:required-or-additional': 50, 'no-arguments-call': 50, 'twin-registration-calls': 100,
-                'pydantic:default-none-on-non-optional': 50, 'pydantic:unhashable-default': 30, 'dispatcher:json-loader-yields-Decimal': 100, 'context-handed-over-positionally': 100, 'jsonschema:declares-draft-04': 50, 'pydantic:postponed-annotations': 100, 'dispatcher-from-add_endpoint': 100}}
+                'pydantic:default-none-on-non-optional': 50, 'pydantic:unhashable-default': 30, 'dispatcher:json-loader-yields-Decimal': 100, 'context-handed-over-positionally': 100, 'jsonschema:declares-draft-04': 50, 'pydantic:postponed-annotations': 100, 'dispatcher-from-add_endpoint': 100,
+                # one validator object shared by several same-named functions of different signatures
+                'shared-validator:groups': 150, 'shared-validator:base': 40, 'shared-validator:jsonschema': 40, 'shared-validator:pydantic': 40,
+                'shared-validator:calls': 5000, 'shared-validator:call-after-a-sibling-was-called': 4000,
+                'shared-validator:order-interleaved': 100, 'shared-validator:order-blocks': 15, 'shared-validator:style-def': 40,
+                'shared-validator:style-async': 40, 'shared-validator:style-view': 40, 'shared-validator:same-exclusion-set': 100,
+                'shared-validator:exclusion-sets-differ': 20, 'base:accepted': 500, 'base:refused-by-binding': 500,
+                # view members that are class / static methods; validator-level default schema (constructor argument)
+                'style:view-classmethod': 40, 'style:view-staticmethod': 40,
+                'jsonschema:validator-level-default-schema:lax-default-overridden': 15,
+                'jsonschema:validator-level-default-schema:strict-default-overridden': 15,
+                'jsonschema:validator-level-default-schema:other-default-overridden': 15,
+                'jsonschema:validator-level-default-schema:default-only': 15}}
 
 ABSENT = '__absent__'
 
@@ -174,8 +196,8 @@ NS = {'Annotated': typing.Annotated, 'Field': pydantic.Field, 'PositiveInt': pyd
 def render(params, with_ctx, skip, style, annotate):
     """params: [(name, kind, has_default, annotation-or-None)]"""
     parts, star = [], False
-    if style == 'view':
-        parts.append('self')
+    if style == 'view' and DISP.get('view_deco') != 'staticmethod':
+        parts.append('cls' if DISP.get('view_deco') == 'classmethod' else 'self')
     plist = list(params)
     if with_ctx and style != 'view':          # a view receives the context through its constructor
         plist = [('ctx', 'PK', False, None)] + plist
@@ -219,10 +241,13 @@ def endpoint_dispatcher(via, is_async):
 VIA = {'via': None}
 # dispatcher-level options of a case: a json_loader that yields non-builtin numbers (parse_float=Decimal, the documented way to
 # keep money exact), and a context handed over positionally (Method(..., positional=True))
-DISP = {'kwargs': {}, 'ctx_positional': False}
+# ... and, for view style, what kind of member the method is: '' (instance method) / 'classmethod' / 'staticmethod'
+DISP = {'kwargs': {}, 'ctx_positional': False, 'view_deco': ''}
 
 
-def build(params, with_ctx, skip, style, validator, deco_kwargs, annotate, postponed=False):
+def build(params, with_ctx, skip, style, validator, deco_kwargs, annotate, postponed=False, disp=None, name='f'):
+    """`disp` / `name`: register on an existing dispatcher under another name (the function keeps __name__ / __qualname__ 'f';
+    a view's method is then reachable as '<name>.f')"""
     src = render(params, with_ctx, skip, style, annotate)
     ns = dict(NS, LOG=[], VIEWS=[], __name__='vmon_c14_programs')
     if postponed:
@@ -235,26 +260,30 @@ def build(params, with_ctx, skip, style, validator, deco_kwargs, annotate, postp
         sys.modules['vmon_c14_postponed'] = mod
         ns = mod.__dict__
     if style == 'view':
+        if DISP.get('view_deco'):
+            src = '@' + DISP['view_deco'] + '\n' + src
         src = ('class View(ViewMixin):\n    def __init__(self, context=None):\n        super().__init__()\n'
                '        VIEWS.append(context)\n' + '\n'.join('    ' + l for l in src.splitlines()))
     if postponed:
         src = 'from __future__ import annotations\n' + src
     exec(compile(src, '<vmon_c14_programs>', 'exec', dont_inherit=True), ns)
     is_async = style == 'async'
-    disp = endpoint_dispatcher(VIA['via'], is_async) or (pjrpc.server.AsyncDispatcher if is_async else pjrpc.server.Dispatcher)(**DISP['kwargs'])
+    if disp is None:
+        disp = endpoint_dispatcher(VIA['via'], is_async) or (pjrpc.server.AsyncDispatcher if is_async else pjrpc.server.Dispatcher)(**DISP['kwargs'])
     if style == 'view':
-        validator.validate(ns['View'].f, **deco_kwargs)
+        member = ns['View'].__dict__['f']
+        validator.validate(getattr(member, '__func__', member), **deco_kwargs)
         reg = pjrpc.server.MethodRegistry()
         # the view takes the context through its constructor: the designated name may coincide with a parameter of the
         # method, which stays an ordinary, validated, client-supplied parameter
-        reg.view(ns['View'], context=(params[0][0] if params else 'ctx') if with_ctx else None)
+        reg.view(ns['View'], context=(params[0][0] if params else 'ctx') if with_ctx else None, **({'prefix': name} if name != 'f' else {}))
         disp.add_methods(reg)
     else:
         validator.validate(ns['f'], **deco_kwargs)
-        disp.add(ns['f'], 'f', context='ctx' if with_ctx else None, **({'positional': True} if with_ctx and DISP['ctx_positional'] else {}))
+        disp.add(ns['f'], name, context='ctx' if with_ctx else None, **({'positional': True} if with_ctx and DISP['ctx_positional'] else {}))
         if with_ctx:
             # the same function object registered a second time WITHOUT a context designation: `ctx` is ordinary there
-            disp.add(ns['f'], 'f2')
+            disp.add(ns['f'], name + '2')
     return ns, src, disp, is_async
 
 
@@ -346,62 +375,107 @@ def _safe(runs):
 
 # ---- JSON-schema programs ----------------------------------------------------------------------------
 
-def run_js(ctx, params, frags, required, additional, with_ctx, skip, style, draft=None, via=None):
-    plist = [(n, k, d, None) for n, k, d in params]
+VALIDATOR_DEFAULTS = {
+    # JsonSchemaValidator(**kwargs): "default jsonschema validator arguments"; what a method gives in validate(...) goes first
+    'lax-default-overridden': {'type': 'object'},
+    'strict-default-overridden': {'type': 'object', 'properties': {}, 'additionalProperties': False},
+    'other-default-overridden': {'type': 'object', 'properties': {'zz': {'type': 'integer'}}, 'required': ['zz']},
+    'default-only': None,          # the validator's default schema is the only one: the method is decorated with a bare validate
+}
+
+
+def run_js(ctx, params, frags, required, additional, with_ctx, skip, style, draft=None, via=None, vdeco='', vdefault=None):
     VIA['via'] = via
-    DISP['kwargs'], DISP['ctx_positional'] = {}, False
+    DISP['kwargs'], DISP['ctx_positional'], DISP['view_deco'] = {}, False, vdeco if style == 'view' else ''
     if via:
         ctx.hit('dispatcher-from-add_endpoint')
-    DRAFT['declared'] = draft
-    schema = {'type': 'object', 'properties': {p[0]: FRAGMENTS[f] for p, f in zip(params, frags)}}
-    if draft == 4:
-        # a schema that says which draft it is written in is judged by that draft's rules
-        schema['$schema'] = 'http://json-schema.org/draft-04/schema#'
-        ctx.hit('jsonschema:declares-draft-04')
-    if required:
-        schema['required'] = required
-    if additional is not None:
-        schema['additionalProperties'] = additional
-    if required or additional is not None:
-        ctx.hit('jsonschema:required-or-additional')
-    validator = vjs.JsonSchemaValidator(exclude_param=(lambda name, ann, default: name == 'skip') if skip else None)
-    try:
-        ns, src, disp, is_async = build(plist, with_ctx, skip, style, validator, {'schema': schema}, annotate=False)
-    except Exception as e:
-        ctx.violation(f'registration-raises:{type(e).__name__}', 'jsonschema', (repr(params), repr(schema)), exception=e)
+    pred = (lambda name, ann, default: name == 'skip') if skip else None
+    if vdefault:
+        ctx.hit('jsonschema:validator-level-default-schema:' + vdefault)
+
+        def validator(schema):
+            return vjs.JsonSchemaValidator(exclude_param=pred, schema=VALIDATOR_DEFAULTS[vdefault] or schema)
+    else:
+        validator = vjs.JsonSchemaValidator(exclude_param=pred)
+    mb = js_member(ctx, ctx.rng, validator, params, frags, required, additional, with_ctx, skip, style, draft, bare=vdefault == 'default-only')
+    if mb is None:
         return
     _marks(ctx, with_ctx, skip, style)
     twin = with_ctx and style != 'view'
+    tag = ':validator-level-default-schema' if vdefault else (':view-' + DISP['view_deco'] if DISP['view_deco'] else '')
+    for n_case, case in enumerate(mb['cases']):
+        if twin and n_case % 5 == 0:
+            twin_registration_call(ctx, mb['disp'], mb['is_async'], mb['ns'], mb['src'], mb['goods'],
+                                   schema_ok(mb['schema'], dict(mb['goods'], ctx='plain-value')), 'jsonschema')
+        js_judge(ctx, mb, case, tag=tag)
+
+
+def js_member(ctx, rng, validator, params, frags, required, additional, with_ctx, skip, style, draft=None, disp=None, name='f', bare=False):
+    """one generated method under a JsonSchemaValidator (or, frags None, under a plain BaseValidator: binding alone decides)
+    + the calls it is to be judged on. None when registration already failed (reported)."""
+    plist = [(n, k, d, None) for n, k, d in params]
+    vname = 'jsonschema' if frags is not None else 'base'
+    if frags is None:
+        schema, frags, deco = {}, [7] * len(plist), {}           # fragment 7 = {} constrains nothing
+    else:
+        schema = {'type': 'object', 'properties': {p[0]: FRAGMENTS[f] for p, f in zip(params, frags)}}
+        if draft == 4:
+            # a schema that says which draft it is written in is judged by that draft's rules
+            schema['$schema'] = 'http://json-schema.org/draft-04/schema#'
+            ctx.hit('jsonschema:declares-draft-04')
+        if required:
+            schema['required'] = required
+        if additional is not None:
+            schema['additionalProperties'] = additional
+        if required or additional is not None:
+            ctx.hit('jsonschema:required-or-additional')
+        deco = {} if bare else {'schema': schema}
+    if not isinstance(validator, vbase.BaseValidator):
+        validator = validator(schema)          # a factory: the validator's constructor wants to see the schema
+    DRAFT['declared'] = draft
+    try:
+        ns, src, disp, is_async = build(plist, with_ctx, skip, style, validator, deco, annotate=False, disp=disp, name=name)
+    except Exception as e:
+        ctx.violation(f'registration-raises:{type(e).__name__}', vname, (repr(params), repr(schema)), exception=e)
+        return None
     goods = {}
     for p, f in zip(plist, frags):
         g = [v for v in JS_VALUES if frag_ok(FRAGMENTS[f], v)]
         goods[p[0]] = g[0] if g else 1
-    for n_case, case in enumerate(js_cases(ctx, plist, frags, with_ctx, skip)):
-        if twin and n_case % 5 == 0:
-            twin_registration_call(ctx, disp, is_async, ns, src, goods, schema_ok(schema, dict(goods, ctx='plain-value')), 'jsonschema')
-        st, out, CTX = call(disp, is_async, case, ns)
-        m = bind_model(plist, case, skip)
-        conforms = m is not None and schema_ok(schema, m)
-        kind = None if conforms else ('binding' if m is None else 'schema')
-        cls = (src, json.dumps(schema, sort_keys=True), json.dumps(case))
-        fam = f'jsonschema:{style}:' + ('named' if isinstance(case, dict) else 'positional')
-        wit = dict(source=src, schema=schema, params=case, validator='JsonSchemaValidator', model_verdict=kind or 'conforming')
-        _case_marks(ctx, case, 'jsonschema', kind)
-        verdict, rec = judge_common(ctx, fam, cls, wit, st, out, ns, CTX, conforms, kind, with_ctx, style)
-        if verdict == 'refused':
-            ctx.ok(fam + ':refused-' + kind, cls, sample=wit)
-        if verdict != 'ran':
-            continue
-        # accepted arguments reach the method unchanged; omitted ones take their defaults
-        want = {p[0]: (m[p[0]] if p[0] in m else 'd_' + p[0]) for p in plist}
-        got = {k: v for k, v in rec.items() if k not in ('ctx', 'skip')}
-        if not typed_eq(_norm(got), _norm(want)):
-            ctx.violation('accepted-arguments-altered', fam, cls, executions=_safe([rec]), expected=want, **wit)
-            continue
-        if skip and rec.get('skip') != 'skip-default':
-            ctx.violation('excluded-parameter-set-by-client', fam, cls, executions=_safe([rec]), **wit)
-            continue
-        ctx.ok(fam + ':accepted', cls, sample=wit)
+    return dict(vname=vname, plist=plist, frags=frags, schema=schema, draft=draft, with_ctx=with_ctx, skip=skip, style=style,
+                ns=ns, src=src, disp=disp, is_async=is_async, goods=goods, judge=js_judge,
+                method=name if style != 'view' or name == 'f' else name + '.f',
+                cases=list(js_cases(rng, plist, frags, with_ctx, skip)))
+
+
+def js_judge(ctx, mb, case, tag=''):
+    """one call of one member, judged against that member's own signature and schema"""
+    plist, schema, ns, src, style, with_ctx, skip, vname = (mb[k] for k in ('plist', 'schema', 'ns', 'src', 'style', 'with_ctx', 'skip', 'vname'))
+    DRAFT['declared'] = mb['draft']
+    st, out, CTX = call(mb['disp'], mb['is_async'], case, ns, method=mb['method'])
+    m = bind_model(plist, case, skip)
+    conforms = m is not None and schema_ok(schema, m)
+    kind = None if conforms else ('binding' if m is None else 'schema')
+    cls = (src, json.dumps(schema, sort_keys=True), json.dumps(case), tag)
+    fam = f'{vname}:{style}:' + ('named' if isinstance(case, dict) else 'positional') + tag
+    wit = dict(source=src, schema=schema, params=case, validator={'jsonschema': 'JsonSchemaValidator', 'base': 'BaseValidator'}[vname],
+               model_verdict=kind or 'conforming')
+    _case_marks(ctx, case, vname, kind)
+    verdict, rec = judge_common(ctx, fam, cls, wit, st, out, ns, CTX, conforms, kind, with_ctx, style, tag=tag)
+    if verdict == 'refused':
+        ctx.ok(fam + ':refused-' + kind, cls, sample=wit)
+    if verdict != 'ran':
+        return
+    # accepted arguments reach the method unchanged; omitted ones take their defaults
+    want = {p[0]: (m[p[0]] if p[0] in m else 'd_' + p[0]) for p in plist}
+    got = {k: v for k, v in rec.items() if k not in ('ctx', 'skip')}
+    if not typed_eq(_norm(got), _norm(want)):
+        ctx.violation('accepted-arguments-altered' + tag, fam, cls, executions=_safe([rec]), expected=want, **wit)
+        return
+    if skip and rec.get('skip') != 'skip-default':
+        ctx.violation('excluded-parameter-set-by-client' + tag, fam, cls, executions=_safe([rec]), **wit)
+        return
+    ctx.ok(fam + ':accepted', cls, sample=wit)
 
 
 def _marks(ctx, with_ctx, skip, style):
@@ -411,6 +485,8 @@ def _marks(ctx, with_ctx, skip, style):
         ctx.hit('excluded-parameter')
     if style in ('view', 'async'):
         ctx.hit('style:' + style)
+    if style == 'view' and DISP.get('view_deco'):
+        ctx.hit('style:view-' + DISP['view_deco'])
 
 
 def _case_marks(ctx, case, vname, kind):
@@ -434,8 +510,7 @@ def _norm(v):
     return v
 
 
-def js_cases(ctx, plist, frags, with_ctx, skip):
-    rng = ctx.rng
+def js_cases(rng, plist, frags, with_ctx, skip):
     names = [p[0] for p in plist]
     yield []
     yield {}
@@ -470,9 +545,10 @@ def js_cases(ctx, plist, frags, with_ctx, skip):
 
 # ---- pydantic programs -----------------------------------------------------------------------------------
 
-def run_pd(ctx, params, with_ctx, skip, style, coerce, postponed=False, via=None, loader=None, ctx_positional=False):
+def run_pd(ctx, params, with_ctx, skip, style, coerce, postponed=False, via=None, loader=None, ctx_positional=False, vdeco=''):
     """params: [(name, kind, has_default, annotation)]"""
     VIA['via'] = via
+    DISP['view_deco'] = vdeco if style == 'view' else ''
     import decimal
     import functools
     DISP['kwargs'] = {'json_loader': functools.partial(json.loads, parse_float=decimal.Decimal)} if loader == 'decimal' and not via else {}
@@ -485,17 +561,30 @@ def run_pd(ctx, params, with_ctx, skip, style, coerce, postponed=False, via=None
         ctx.hit('dispatcher-from-add_endpoint')
     if postponed:
         ctx.hit('pydantic:postponed-annotations')
-    plist = [tuple(p) for p in params]
     pred = (lambda name, ann, default: name == 'skip') if skip else None
     # constructed by keyword or positionally in the documented order (coerce, exclude_param)
-    validator = vpd.PydanticValidator(coerce, pred) if len(plist) % 2 else vpd.PydanticValidator(coerce=coerce, exclude_param=pred)
+    validator = vpd.PydanticValidator(coerce, pred) if len(params) % 2 else vpd.PydanticValidator(coerce=coerce, exclude_param=pred)
+    mb = pd_member(ctx, ctx.rng, validator, params, with_ctx, skip, style, coerce, postponed)
+    if mb is None:
+        return
+    if not mb['tag'] and DISP['view_deco']:
+        mb['tag'] = ':view-' + DISP['view_deco']
+    _marks(ctx, with_ctx, skip, style)
+    twin = with_ctx and style != 'view'
+    for n_case, (case, entries) in enumerate(mb['cases']):
+        if twin and n_case % 5 == 0:
+            twin_registration_call(ctx, mb['disp'], mb['is_async'], mb['ns'], mb['src'], mb['goods'], True, 'pydantic', tag=mb['tag'])
+        pd_judge(ctx, mb, (case, entries), tag=mb['tag'])
+
+
+def pd_member(ctx, rng, validator, params, with_ctx, skip, style, coerce, postponed=False, disp=None, name='f'):
+    """one generated method under a PydanticValidator + the calls it is to be judged on. None when registration failed (reported)."""
+    plist = [tuple(p) for p in params]
     try:
-        ns, src, disp, is_async = build(plist, with_ctx, skip, style, validator, {}, annotate=True, postponed=postponed)
+        ns, src, disp, is_async = build(plist, with_ctx, skip, style, validator, {}, annotate=True, postponed=postponed, disp=disp, name=name)
     except Exception as e:
         ctx.violation(f'registration-raises:{type(e).__name__}', 'pydantic', (repr(params),), exception=e)
-        return
-    _marks(ctx, with_ctx, skip, style)
-    rng = ctx.rng
+        return None
     names = [p[0] for p in plist]
     cases = [([], None), ({}, None)]
     for variant in range(5 + 2 * len(plist)):
@@ -531,67 +620,129 @@ def run_pd(ctx, params, with_ctx, skip, style, coerce, postponed=False, via=None
         cases.append(({**{n: ANNOT[p[3]][0][0] for n, p in zip(names, plist)}, 'skip': 'evil'}, None))
     if with_ctx:
         cases.append(({**{n: ANNOT[p[3]][0][0] for n, p in zip(names, plist)}, 'ctx': 'evil'}, None))
-    twin = with_ctx and style != 'view'
     goods = {n: next(e[0] for e in ANNOT[p[3]] if e[1] in ('ok', 'coerce')) for n, p in zip(names, plist)}
-    for n_case, (case, entries) in enumerate(cases):
-        if twin and n_case % 5 == 0:
-            twin_registration_call(ctx, disp, is_async, ns, src, goods, True, 'pydantic', tag=tag)
-        st, out, CTX = call(disp, is_async, case, ns)
-        m = bind_model(plist, case, skip)
-        statuses = {}
-        if m is not None:
-            for name, v in m.items():
-                ann = next(p[3] for p in plist if p[0] == name)
-                hit = [e for e in ANNOT[ann] if typed_eq(_norm(e[0]), _norm(v))]
-                statuses[name] = hit[0] if hit else None
-        unknown = m is not None and any(s is None for s in statuses.values())
-        if unknown:
-            ctx.skip('value-outside-the-annotation-table')
-            continue
-        bad = m is not None and any(s[1].startswith('bad') for s in statuses.values())
-        live = m is not None and any(s[1] == 'bad-live-exception' for s in statuses.values())
-        conforms = m is not None and not bad
-        kind = None if conforms else ('binding' if m is None else 'schema')
-        cls = (src, coerce, json.dumps(case))
-        fam = f'pydantic:{"coerce" if coerce else "asis"}:{style}:' + ('named' if isinstance(case, dict) else 'positional')
-        wit = dict(source=src, params=case, validator=f'PydanticValidator(coerce={coerce})', model_verdict=kind or 'conforming')
-        _case_marks(ctx, case, 'pydantic', kind)
-        if live:
-            ctx.hit('pydantic:live-exception-in-error')
-        verdict, rec = judge_common(ctx, fam, cls, wit, st, out, ns, CTX, conforms,
-                                    kind + (':live-exception-in-details' if live else '') if kind else None, with_ctx, style,
-                                    tag=tag)
-        if verdict == 'refused':
-            ctx.ok(fam + ':refused-' + kind, cls, sample=wit)
-        if verdict != 'ran':
-            continue
-        problem = None
-        for p in plist:
-            name = p[0]
-            got = rec.get(name)
-            if name in m:
-                e = statuses[name]
-                if coerce:
-                    if not e[2](got):
-                        problem = f'coercion-on:argument-not-of-annotated-type:{p[3]}'
-                    if e[1] == 'coerce':
-                        ctx.hit('pydantic:coerced')
-                else:
-                    if not typed_eq(_norm(got), _norm(m[name])) or type(got) is not type(m[name]):
-                        problem = f'coercion-off:argument-altered:{p[3]}'
-                    ctx.hit('pydantic:coercion-off-accepted')
+    return dict(vname='pydantic', plist=plist, coerce=coerce, with_ctx=with_ctx, skip=skip, style=style, tag=tag,
+                ns=ns, src=src, disp=disp, is_async=is_async, goods=goods, cases=cases, judge=pd_judge,
+                method=name if style != 'view' or name == 'f' else name + '.f')
+
+
+def pd_judge(ctx, mb, case_entries, tag=''):
+    """one call of one member, judged against that member's own signature and annotations"""
+    plist, ns, src, style, with_ctx, skip, coerce = (mb[k] for k in ('plist', 'ns', 'src', 'style', 'with_ctx', 'skip', 'coerce'))
+    case, entries = case_entries
+    st, out, CTX = call(mb['disp'], mb['is_async'], case, ns, method=mb['method'])
+    m = bind_model(plist, case, skip)
+    statuses = {}
+    if m is not None:
+        for name, v in m.items():
+            ann = next(p[3] for p in plist if p[0] == name)
+            hit = [e for e in ANNOT[ann] if typed_eq(_norm(e[0]), _norm(v))]
+            statuses[name] = hit[0] if hit else None
+    unknown = m is not None and any(s is None for s in statuses.values())
+    if unknown:
+        ctx.skip('value-outside-the-annotation-table')
+        return
+    bad = m is not None and any(s[1].startswith('bad') for s in statuses.values())
+    live = m is not None and any(s[1] == 'bad-live-exception' for s in statuses.values())
+    conforms = m is not None and not bad
+    kind = None if conforms else ('binding' if m is None else 'schema')
+    cls = (src, coerce, json.dumps(case), tag)
+    fam = f'pydantic:{"coerce" if coerce else "asis"}:{style}:' + ('named' if isinstance(case, dict) else 'positional')
+    wit = dict(source=src, params=case, validator=f'PydanticValidator(coerce={coerce})', model_verdict=kind or 'conforming')
+    _case_marks(ctx, case, 'pydantic', kind)
+    if live:
+        ctx.hit('pydantic:live-exception-in-error')
+    verdict, rec = judge_common(ctx, fam, cls, wit, st, out, ns, CTX, conforms,
+                                kind + (':live-exception-in-details' if live else '') if kind else None, with_ctx, style,
+                                tag=tag)
+    if verdict == 'refused':
+        ctx.ok(fam + ':refused-' + kind, cls, sample=wit)
+    if verdict != 'ran':
+        return
+    problem = None
+    for p in plist:
+        name = p[0]
+        got = rec.get(name)
+        if name in m:
+            e = statuses[name]
+            if coerce:
+                if not e[2](got):
+                    problem = f'coercion-on:argument-not-of-annotated-type:{p[3]}'
+                if e[1] == 'coerce':
+                    ctx.hit('pydantic:coerced')
             else:
-                want = None if (p[3].startswith('Optional') or p[2] == 'none') else 'd_' + name
-                if p[2] == 'empty':
-                    want = [] if p[3].startswith('List') else {}
-                if got != want:
-                    problem = 'default-not-applied'
-        if skip and rec.get('skip') != 'skip-default':
-            problem = 'excluded-parameter-set-by-client'
-        if problem:
-            ctx.violation(problem, fam, cls, executions=_safe([rec]), **wit)
-            continue
-        ctx.ok(fam + ':accepted', cls, sample=wit)
+                if not typed_eq(_norm(got), _norm(m[name])) or type(got) is not type(m[name]):
+                    problem = f'coercion-off:argument-altered:{p[3]}'
+                ctx.hit('pydantic:coercion-off-accepted')
+        else:
+            want = None if (p[3].startswith('Optional') or p[2] == 'none') else 'd_' + name
+            if p[2] == 'empty':
+                want = [] if p[3].startswith('List') else {}
+            if got != want:
+                problem = 'default-not-applied'
+    if skip and rec.get('skip') != 'skip-default':
+        problem = 'excluded-parameter-set-by-client'
+    if problem:
+        ctx.violation(problem + (tag if tag.startswith(':one-validator') else ''), fam, cls, executions=_safe([rec]), **wit)
+        return
+    ctx.ok(fam + ':accepted', cls, sample=wit)
+
+
+# ---- one validator object, several functions of the same name -----------------------------------------------
+
+SHARED_TAG = ':one-validator-several-same-named-functions'
+
+
+def run_shared(ctx, vkind, members, with_ctx, skip, style, coerce=True, order='interleaved', rseed=0):
+    """ONE validator object (base / jsonschema / pydantic) decorates several DIFFERENT functions that all have the same
+    __module__, __name__ and __qualname__ (a handler re-defined for a second API version, closures of one factory,
+    exec-generated handlers, the method `f` of several classes called View) but different signatures / schemas; they are
+    registered on one dispatcher under different JSON-RPC names and called in a mixed order. Every call is judged against the
+    signature and schema of the function it is dispatched to - exactly as if that function were alone.
+    members: per member the `params` (+ `frags`, `required`, `additional` for jsonschema); with_ctx: per member."""
+    import random
+    rng = random.Random(rseed)
+    VIA['via'] = None
+    DISP['kwargs'], DISP['ctx_positional'], DISP['view_deco'] = {}, False, ''
+    pred = (lambda name, ann, default: name == 'skip') if skip else None
+    if vkind == 'base':
+        validator = vbase.BaseValidator(exclude_param=pred)
+    elif vkind == 'jsonschema':
+        validator = vjs.JsonSchemaValidator(exclude_param=pred)
+    else:
+        validator = vpd.PydanticValidator(coerce=coerce, exclude_param=pred)
+    disp = (pjrpc.server.AsyncDispatcher if style == 'async' else pjrpc.server.Dispatcher)()
+    mbs = []
+    for j, spec in enumerate(members):
+        if vkind == 'pydantic':
+            mb = pd_member(ctx, rng, validator, spec['params'], with_ctx[j], skip, style, coerce, disp=disp, name=f'm{j}')
+        else:
+            mb = js_member(ctx, rng, validator, spec['params'], spec.get('frags'), spec.get('required'), spec.get('additional'),
+                           with_ctx[j], skip, style, disp=disp, name=f'm{j}')
+        if mb is None:
+            return
+        _marks(ctx, with_ctx[j], skip, style)
+        mbs.append(mb)
+    ctx.hit('shared-validator:groups')
+    ctx.hit('shared-validator:' + vkind)
+    ctx.hit('shared-validator:order-' + order)
+    ctx.hit('shared-validator:style-' + style)
+    ctx.hit('shared-validator:same-exclusion-set' if len(set(with_ctx)) == 1 else 'shared-validator:exclusion-sets-differ')
+    if order == 'interleaved':
+        seq = [(j, c) for j, mb in enumerate(mbs) for c in mb['cases']]
+        rng.shuffle(seq)
+    else:
+        # member after member (in some order), then back again through the first calls of each
+        first = list(range(len(mbs)))
+        rng.shuffle(first)
+        seq = [(j, c) for j in first for c in mbs[j]['cases']] + [(j, c) for j in reversed(first) for c in mbs[j]['cases'][2:7]]
+    called = set()
+    for j, c in seq:
+        ctx.hit('shared-validator:calls')
+        if called - {j}:
+            ctx.hit('shared-validator:call-after-a-sibling-was-called')
+        called.add(j)
+        mbs[j]['judge'](ctx, mbs[j], c, tag=SHARED_TAG)
 
 
 # ---- generation ------------------------------------------------------------------------------------------
@@ -611,6 +762,22 @@ def shapes(max_params):
     return out
 
 
+def annotate_shape(rng, ps, anns):
+    plist = []
+    for (n, kind, dflt) in ps:
+        a = rng.choice(anns)
+        if dflt and (a in ('Item', 'Color', 'Picky', 'List[int]', 'Dict[str, int]', 'int', 'float', 'PositiveInt')
+                     or a.startswith('Annotated')):
+            if a in ('List[int]', 'Dict[str, int]') and rng.random() < 0.5:
+                dflt = 'empty'         # a mutable (unhashable) default of the annotated type
+            elif rng.random() < 0.4:
+                dflt = 'none'          # ... or be the customary None on a non-Optional annotation
+            else:
+                a = rng.choice(['str', 'Optional[int]'])       # defaults must conform to the annotation
+        plist.append([n, kind, dflt, a])
+    return plist
+
+
 def gen(ctx):
     rng = ctx.rng
     full = ctx.thorough
@@ -628,21 +795,13 @@ def gen(ctx):
             additional = [None, False, True][k % 3]
             yield 'js', dict(params=[list(p) for p in ps], frags=frags, required=required, additional=additional,
                              with_ctx=bool(k % 2), skip=bool((k // 2) % 2), style=('def', 'async', 'view', 'def')[(k // 4) % 4], draft=draft,
-                             via=(None, None, 'flask-endpoint', 'aiohttp-endpoint')[(k // 3) % 4])
+                             via=(None, None, 'flask-endpoint', 'aiohttp-endpoint')[(k // 3) % 4],
+                             vdeco=('', 'classmethod', 'staticmethod')[(k // 16) % 3],
+                             vdefault=(None, None, 'lax-default-overridden', None, 'default-only', None, 'strict-default-overridden', None,
+                                       None, 'other-default-overridden')[(k // 5) % 10])
         for _ in range(reps * 2):
             k += 1
-            plist = []
-            for (n, kind, dflt) in ps:
-                a = rng.choice(anns)
-                if dflt and (a in ('Item', 'Color', 'Picky', 'List[int]', 'Dict[str, int]', 'int', 'float', 'PositiveInt')
-                             or a.startswith('Annotated')):
-                    if a in ('List[int]', 'Dict[str, int]') and rng.random() < 0.5:
-                        dflt = 'empty'         # a mutable (unhashable) default of the annotated type
-                    elif rng.random() < 0.4:
-                        dflt = 'none'          # ... or be the customary None on a non-Optional annotation
-                    else:
-                        a = rng.choice(['str', 'Optional[int]'])       # defaults must conform to the annotation
-                plist.append([n, kind, dflt, a])
+            plist = annotate_shape(rng, ps, anns)
             extra = {}
             if (k // 7) % 3 == 0 and not any(p[3] == 'float' for p in plist):
                 extra['loader'] = 'decimal'          # (float-annotated parameters left out: a Decimal is no float to an as-is method)
@@ -650,7 +809,8 @@ def gen(ctx):
                 extra['ctx_positional'] = True
             yield 'pd', dict(params=plist, with_ctx=bool(k % 2), skip=bool((k // 2) % 2),
                              style=('def', 'async', 'view', 'def')[k % 4], coerce=bool((k // 4) % 2), postponed=(k % 3 == 0),
-                             via=(None, 'flask-endpoint', None, 'aiohttp-endpoint', None)[(k // 5) % 5], **extra)
+                             via=(None, 'flask-endpoint', None, 'aiohttp-endpoint', None)[(k // 5) % 5],
+                             vdeco=('', 'classmethod', 'staticmethod')[(k // 4) % 3], **extra)
     # every annotation alone, both coercion modes, every table entry
     for a in anns:
         for coerce in (True, False):
@@ -673,4 +833,30 @@ def gen(ctx):
         yield 'js', dict(params=[['a', 'KO', True]], frags=[7], required=['a'], additional=None, with_ctx=True, skip=True, style=style)
 
 
-KINDS = {'js': run_js, 'pd': run_pd}
+    # one validator object shared by 2..3 same-named functions of different signatures, called in a mixed order
+    shared_names = ('a', 'b', 'c', 'd')
+    for g in range(ctx.pick(270, 4500)):
+        vkind = ('base', 'jsonschema', 'pydantic')[g % 3]
+        n = 2 + (g // 3) % 2
+        style = ('def', 'async', 'view')[(g // 6) % 3]
+        members = []
+        for ps in rng.sample(shp, n):
+            names = rng.sample(shared_names, len(ps))
+            if g % 4 == 0:
+                names = sorted(names)
+            ps = [[nm, kind, dflt] for nm, (_, kind, dflt) in zip(names, ps)]
+            if vkind == 'pydantic':
+                members.append({'params': annotate_shape(rng, ps, anns)})
+            elif vkind == 'jsonschema':
+                members.append({'params': ps, 'frags': [rng.randrange(N_FRAGMENTS_ANY_DRAFT) for _ in ps],
+                                'required': [] if rng.random() < 0.6 else [rng.choice(names)],
+                                'additional': rng.choice([None, False, True])})
+            else:
+                members.append({'params': ps})
+        same_ctx = bool((g // 2) % 2)
+        yield 'shared', dict(vkind=vkind, members=members, with_ctx=[same_ctx if g % 5 else bool(j % 2) for j in range(n)],
+                             skip=bool((g // 9) % 2), style=style, coerce=bool((g // 18) % 2),
+                             order='blocks' if g % 7 == 3 else 'interleaved', rseed=rng.randrange(2 ** 32))
+
+
+KINDS = {'js': run_js, 'pd': run_pd, 'shared': run_shared}
